@@ -177,7 +177,7 @@ func (c *Ctx) Sample(v any) {
 }
 
 // Expensive marks the failure just recorded as costly to reproduce (a hang, a crash, an
-// exceeded step budget). A worker that has seen six of them in one space skips the rest of
+// exceeded step budget). A worker that has seen four of them in one space skips the rest of
 // that space: the tree is broken beyond doubt and every further case may cost minutes.
 func (c *Ctx) Expensive() {
 	if c.space != nil {
@@ -188,7 +188,7 @@ func (c *Ctx) Expensive() {
 	}
 }
 
-func (c *Ctx) spaceExhausted(sp *Space) bool { return c.expensive[sp.Name] >= 6 }
+func (c *Ctx) spaceExhausted(sp *Space) bool { return c.expensive[sp.Name] >= 4 }
 
 // Fail records a violation for the current case. witness is the canonical
 // (shrunk) form used to match known findings; detail is free-form.
